@@ -26,8 +26,8 @@ CasesQuick ==
     \cup {<<<<G3b, G3b>>, {<<3, 1>>, <<2, 3>>}>>, <<<<G2, G3a, G3b>>, {<<1, 1, 1>>, <<2, 1, 2>>}>>}
 CasesThorough ==
     {<<<<g>>, NsBox(1, 4)>> : g \in {G2, G3a, G3b, G4a, G4b, G3i, G4u}}
-    \cup {<<<<g, h>>, NsBox(2, 3)>> : g \in {G3b, G4a, G3i}, h \in {G2, G3b, G3i, G4b}}
-    \cup {<<<<g, h, k>>, NsBox(3, 2)>> : g \in {G2, G3b}, h \in {G3a, G3i}, k \in {G2, G3b}}
+    \cup {<<<<g, h>>, NsBox(2, 3)>> : g \in {G3b, G4a, G3i}, h \in {G2, G3b, G4b}}
+    \cup {<<<<g, h, k>>, NsBox(3, 2)>> : g \in {G2, G3b}, h \in {G3a, G3i}, k \in {G3b}}
 
 VARIABLES phi, grids, ns, stage
 vars == <<phi, grids, ns, stage>>
